@@ -51,3 +51,8 @@ impl Value {
 }
 #[verifier::external_body]
 pub fn vx_fmt() -> String { unimplemented!() }
+// `Value: Clone` (derived in the real source): the clone is an equal value
+impl Clone for Value {
+    #[verifier::external_body]
+    fn clone(&self) -> (r: Self) ensures r == *self { unimplemented!() }
+}
